@@ -177,6 +177,30 @@ def x_ani(report):
             if t not in d:
                 raise Unrecognised("MinHash." + name, f"default {t} missing")
             out[f"{name}.{t}"] = d[t]
+    # size_is_accurate / set_size_exact_prob (decision structure modelled by sizeIsAccurate / setSizeExactProb / setSizeArgs)
+    sia = _find(mh.body, ast.FunctionDef, "size_is_accurate")
+    d = _defaults(sia)
+    if d != {"relative_error": "0.2", "confidence": "0.95"}:
+        raise Unrecognised("MinHash.size_is_accurate", f"defaults changed: {d}")
+    _expect("MinHash.size_is_accurate", _body_src(sia),
+            "if not self.scaled:\n    raise TypeError('Error: can only estimate dataset size for scaled MinHashes')\n"
+            "if any([not 0 <= relative_error <= 1, not 0 <= confidence <= 1]):\n"
+            "    raise ValueError('Error: relative error and confidence values must be between 0 and 1.')\n"
+            "probability = set_size_exact_prob(self.unique_dataset_hashes, self.scaled, relative_error=relative_error)\n"
+            "return probability >= confidence")
+    _expect("MinHash.unique_dataset_hashes", _body_src(_find(mh.body, ast.FunctionDef, "unique_dataset_hashes")),
+            "if not self.scaled:\n    raise TypeError('can only approximate unique_dataset_hashes for scaled MinHashes')\n"
+            "return len(self) * self.scaled")
+    _expect("set_size_exact_prob", _body_src(_find(B, ast.FunctionDef, "set_size_exact_prob")),
+            "pmf_arg = -set_size / scaled * (relative_error - 1)\n"
+            "if pmf_arg == int(pmf_arg):\n"
+            "    prob = binom.cdf(set_size / scaled * (relative_error + 1), set_size, 1 / scaled) - "
+            "binom.cdf(-set_size / scaled * (relative_error - 1), set_size, 1 / scaled) + "
+            "binom.pmf(-set_size / scaled * (relative_error - 1), set_size, 1 / scaled)\n"
+            "else:\n"
+            "    prob = binom.cdf(set_size / scaled * (relative_error + 1), set_size, 1 / scaled) - "
+            "binom.cdf(-set_size / scaled * (relative_error - 1), set_size, 1 / scaled)\n"
+            "return prob")
     pvals = {v for k, v in out.items() if k.endswith("prob_threshold") or k == "p_threshold"}
     evals = {v for k, v in out.items() if k.endswith("err_threshold") or k == "je_threshold"}
     if len(pvals) != 1 or len(evals) != 1:
@@ -188,7 +212,30 @@ def x_ani(report):
     want = norm("if containment == 0.0 { 0.0 } else if containment == 1.0 { 1.0 } else { 1.0 - (1.0 - containment.powf(1.0 / ksize)) }")
     if body != want:
         raise Unrecognised("ani_from_containment (rust)", "shape changed: " + body[:200])
+    # the private helpers, executed through rust-harness and modelled operation by operation (rust* in AniResult.lean)
+    for fn, want_rs in (
+            ("r1_to_q", "1.0 - (1.0 - r1).powi(k as i32)"),
+            ("exp_n_mutated", "let q = r1_to_q(k, r1); l * q"),
+            ("exp_n_mutated_squared", "let var_n = var_n_mutated(l, k, p, None)?; let exp_n_squared = exp_n_mutated(l, k, p).powi(2); Ok(var_n + exp_n_squared)"),
+            ("var_n_mutated",
+             "if r1 == 0.0 { return Ok(0.0); } let q = q.unwrap_or_else(|| r1_to_q(k, r1)); "
+             "let var_n = l * (1.0 - q) * (q * (2.0 * k + (2.0 / r1) - 1.0) - 2.0 * k) + k * (k - 1.0) * (1.0 - q).powi(2) "
+             "+ (2.0 * (1.0 - q) / (r1.powi(2))) * ((1.0 + (k - 1.0) * (1.0 - q)) * r1 - q); "
+             "if var_n < 0.0 { Err(Error::ANIEstimationError { message: \"varN is less than 0.0\".into(), }) } else { Ok(var_n) }"),
+            ("get_exp_probability_nothing_common",
+             "if ani_estimate == 0.0 || ani_estimate == 1.0 { Ok(1.0 - ani_estimate) } else { "
+             "let exp_nmut = exp_n_mutated(n_unique_kmers, ksize, 1.0 - ani_estimate); "
+             "let mut expected_log_probability = (n_unique_kmers - exp_nmut) * (1.0 - f_scaled).ln(); "
+             "if expected_log_probability.is_infinite() { expected_log_probability = f64::NEG_INFINITY; } "
+             "Ok(expected_log_probability.exp()) }")):
+        got = norm(rust_fn_body(rs, fn))
+        if got != norm(want_rs):
+            raise Unrecognised(fn + " (rust)", "shape changed: " + got[:240])
     cib = rust_fn_body(rs, "ani_ci_from_containment")
+    for frag in ("if containment == 0.0 { return Ok((0.0, 0.0)); } else if containment == 1.0 { return Ok((1.0, 1.0)); }",
+                 "find_root_brent(0.0000001, 0.9999999, &f1, &mut convergency)"):
+        if norm(frag) not in norm(cib):
+            raise Unrecognised("ani_ci_from_containment (rust)", "fragment missing: " + frag[:80])
     n_default = len(re.findall(r"find_root_brent\([^;]*?\)\s*\.unwrap_or_default\(\)", cib, flags=re.S))
     n_roots = len(re.findall(r"find_root_brent\(", cib))
     if n_roots != 2 or n_default not in (0, 2):
